@@ -87,7 +87,7 @@ Print Assumptions C10_substr_len_chars_spec.
 Theorem C10_chars_mode_safe : forall s x y, valid_utf8 s = true ->
   (exists r, substr_chars s x = Ok r /\ valid_utf8 r = true) /\
   (exists r, substr_len_chars s x y = Ok r /\ valid_utf8 r = true).
-Proof. intros s x y H. split; [exact (substr_chars_safe s x H)|exact (substr_len_chars_safe s x y H)]. Qed.
+Proof. exact chars_mode_safe. Qed.
 Print Assumptions C10_chars_mode_safe.
 
 (* ascii_modes_agree: all bytes < 128 -> character mode = byte mode, for substr (all doubles),
@@ -98,14 +98,7 @@ Theorem C10_ascii_modes_agree : forall s, is_ascii s = true ->
   (forall t, builtin_index true s t = builtin_index false s t) /\
   builtin_length true s = builtin_length false s /\
   (forall ff, engine_bounds ff -> builtin_match ff true s = builtin_match ff false s).
-Proof.
-  intros s H. split; [|split; [|split; [|split]]].
-  - intros x. exact (ascii_substr s x H).
-  - intros x y. exact (ascii_substr_len s x y H).
-  - intros t. exact (ascii_index s t H).
-  - exact (ascii_length s H).
-  - intros ff Hb. exact (ascii_match ff Hb s H).
-Qed.
+Proof. exact ascii_modes_agree. Qed.
 Print Assumptions C10_ascii_modes_agree.
 
 (* ---- match --------------------------------------------------------------------------- *)
@@ -194,10 +187,7 @@ Theorem C10_engine_hypotheses_hold : forall r,
   engine_bounds (find_from r) /\ engine_step (find_from r) /\
   (forall s a b, find r s = Some (a, b) -> on_rune_boundaries s a b) /\
   (forall s, all_matches_gen (find_from r) s = all_matches r s).
-Proof.
-  intros r. split; [exact (find_from_bounds r)|]. split; [exact (find_from_step r)|].
-  split; [exact (find_on_rune_boundaries r)|exact (all_matches_gen_is_all_matches r)].
-Qed.
+Proof. exact engine_hypotheses_hold. Qed.
 Print Assumptions C10_engine_hypotheses_hold.
 
 Theorem C10_gsub_amp_identity_re : forall r s, sub_re r true [38] s = Ok (s, zlen (all_matches r s)).
@@ -209,7 +199,7 @@ Theorem C10_sub_is_first_of_gsub_re : forall r repl s,
   Ok (weave s (expand_repl repl) (firstn 1 (all_matches r s)) 0, Z.min 1 (zlen (all_matches r s))) /\
   sub_re r true repl s =
   Ok (weave s (expand_repl repl) (all_matches r s) 0, zlen (all_matches r s)).
-Proof. intros r repl s. split; [exact (sub_is_first_of_gsub_re r repl s)|exact (gsub_spec_re r repl s)]. Qed.
+Proof. exact sub_gsub_re. Qed.
 Print Assumptions C10_sub_is_first_of_gsub_re.
 
 (* ---- split --------------------------------------------------------------------------- *)
